@@ -391,7 +391,7 @@ def files(ctx):
                 kd = rng.choice(kinds)
                 vals2[kd], how = mutate(kd, vals[kd], rng)
                 changed = dict(kind=kd, how=how, a=vals[kd], b=vals2[kd])
-                expect = False
+                expect = A.norm(vals2[kd]) == A.norm(vals[kd])      # (a mutation that has nothing to work on — reordering no items — changes nothing)
             elif mode == "slots":
                 n2 = n1 + 1
                 expect = False
